@@ -91,12 +91,14 @@ class World:
         # a suppressing exit says so with any true value, not only with True
         return (True, 1, "yes", [0])[(e + self.salt) % 4] if beh == "truthy" else (False, 0, "", None)[(e + self.salt) % 4]
 
-    def make(self, e, ckind, beh):
+    def make(self, e, ckind, beh, slow=False):
         """Return (register(stack) coroutine function for ExitStack-likes, context manager for nesting)."""
         w = self
 
         class ACM:
             async def __aenter__(self):
+                if slow:        # entering takes its time: the stack may be used meanwhile
+                    await Suspend(w.acct, ("aenter", e))
                 return ("value", e)
 
             async def __aexit__(self, et, ev, tb):
@@ -335,6 +337,7 @@ def _replay_path(args):
     entries = {"main": [], "moved": []}
     out = []
     cur = None   # the unwind in progress: dict(log index, expected ...)
+    skip_register = False
 
     def bad(cls, step, detail):
         out.append((f"C14/ExitStack/{cls}", {"engine": "exitstack", "spec": "ExitStack", "path": [e["a"] for e in path], "salt": salt, "step": step, **detail}))
@@ -342,6 +345,9 @@ def _replay_path(args):
     for j, ed in enumerate(path):
         a = ed["a"]
         op = a[0]
+        if op == "register" and skip_register:
+            skip_register = False
+            continue
         if op == "register":
             e, k, b = a[1], a[2], a[3]
             w.nent = w2.nent = e
@@ -388,6 +394,28 @@ def _replay_path(args):
             if not ok:
                 bad("enter-failure-not-propagated", j, {"observed": repr(r), "mode": mode})
         elif op == "popall":
+            nxt = path[j + 1]["a"] if j + 1 < len(path) else None
+            if nxt is not None and nxt[0] == "register" and nxt[2] == "exit" and (salt + j) % 2 == 0:
+                # the two model steps "pop_all; register" as ONE interleaving of the implementation: enter_context
+                # has started and is suspended inside __aenter__ when pop_all() is called; when the enter completes
+                # its exit belongs to the original stack (it was not registered yet when everything was moved)
+                e, k, b = nxt[1], nxt[2], nxt[3]
+                w.nent = w2.nent = e
+                ra, _, _ = w.make(e, "acm", b, slow=True)
+                _, rs2, _ = w2.make(e, "acm", b, slow=True)
+                t1, t2 = Task(ra(stack), w.acct), Task(rs2(std), w2.acct)
+                t1.step()
+                t2.step()
+                stacks["moved"] = stack.pop_all()
+                stds["moved"] = std.pop_all()
+                r = t1.run() if not t1.done else ("done", None)
+                if not t2.done:
+                    t2.run()
+                if r[0] == "raised":
+                    bad("register-raises", j, {"observed": repr(r[1])})
+                entries["moved"], entries["main"] = entries["main"], [(e, "acm", b)]
+                skip_register = True
+                continue
             stacks["moved"] = stack.pop_all()
             stds["moved"] = std.pop_all()
             entries["moved"], entries["main"] = entries["main"], []
